@@ -284,6 +284,9 @@ def check_by_name(F, rep):
         searches = [c for c in an.calls() if c.declared_norm.startswith("iter::") and c.declared_norm.split("::")[-1] in
                     ("find", "rfind", "filter", "position", "rposition", "last", "find_map", "max_by_key", "min_by_key", "skip_while")]
         good = len(searches) == 1 and searches[0].declared_norm == "iter::Iterator::find"
+        if not searches and len(an.loops) == 1:
+            by_name_loop(F, rep, q, fn, an, w)      # the same search written as a `for` loop with an early return
+            continue
         rep.require(good, "by-name", q + ":first-match", w, "Iterator::find (first match in table order)", "%s searches with %s" % (q, [c.declared_norm for c in searches]))
         if not good:
             continue
@@ -319,6 +322,58 @@ def check_by_name(F, rep):
                     msgs.append("the predicate is %s, expected query == strtab.get(sh_name)" % pp(t)[:160])
         rep.require(not msgs and n_eq == 1 and n_false == 1, "by-name", q + ":predicate", wh(cf["span"]), "str == str on strtab.get(sh_name); false when the name is unreadable",
                     "%s: %s" % (q, "; ".join(msgs) or "unexpected path structure"))
+
+
+def by_name_loop(F, rep, q, fn, an, w):
+    """`for shdr in shdrs.iter() { if let Ok(n) = strtab.get(shdr.sh_name) { if n == name { return Ok(Some(shdr)) } } } Ok(None)`:
+    forward iteration over every header; the loop is left only when exhausted or with the first header whose readable name equals the
+    query (an unreadable name neither matches nor ends the search)."""
+    from ..hashrules import loop_exit_controls
+    hdr = next(iter(an.loops))
+    body = an.loops[hdr]
+    nexts = [c for c in an.calls() if c.declared_norm == "iter::Iterator::next" and c.block in body]
+    srcs = [norm(c.arg_values()[0]) for c in an.calls() if c.declared_norm == "iter::IntoIterator::into_iter"]
+    src_ok = len(srcs) == 1 and len(nexts) == 1 and ((srcs[0][0] == "agg" and "ParsingIterator" in str(srcs[0][1]) and srcs[0][3][3] == C(0))
+                                                      or (srcs[0][0] == "call" and srcs[0][1] in ("[T]::iter", "parse::ParsingTable::iter")))
+    rep.require(src_ok, "by-name", q + ":first-match", w, "forward iteration over every section header",
+                "%s does not iterate the section headers front to back (%s)" % (q, [show(x)[:120] for x in srcs]))
+    if not src_ok:
+        return
+    item = T.payload(nexts[0].result, "Some")
+    gets = [c for c in an.calls() if c.callee_qual == "string_table::StringTable::get" and c.block in body]
+    msgs = []
+    if len(gets) != 1:
+        msgs.append("the loop does not look the name up exactly once per header (%d lookups)" % len(gets))
+    else:
+        g = gets[0]
+        idx = norm(g.arg_values()[1])
+        if not (idx[0] == "fld" and idx[2] == "sh_name" and norm(item) == idx[1]):
+            msgs.append("the name is looked up at %s, expected the current header's sh_name" % show(idx)[:100])
+        name_v = T.payload(g.result, "Ok")
+        n_match = 0
+        for sw, val, tgt, frm in loop_exit_controls(an, hdr):
+            if sw is None or val is None:
+                msgs.append("the loop is left unconditionally from bb%d" % frm)
+                continue
+            d = an.switches[sw]
+            if d.op == "discr" and an.norm_var(d.args[0], ["None", "Some"])[0] is nexts[0].result:
+                if val != "0":
+                    msgs.append("the loop is left while headers remain")
+                continue
+            if d.op == "bin" and d.args[0] == "Eq" and name_v in (d.args[1], d.args[2]) and val == "otherwise":
+                other = d.args[2] if d.args[1] is name_v else d.args[1]
+                if "sh_name" in pp(other) or other.op == "const":
+                    msgs.append("the name is compared with %s, not with the query" % pp(other)[:80])
+                n_match += 1
+                continue
+            msgs.append("the search ends on %s = %s (neither exhaustion nor a name match): an unreadable or different name must not end it" % (pp(d)[:100], val))
+        if n_match != 1:
+            msgs.append("%d match exits" % n_match)
+        # the match returns that header
+        somes = [t for t, st in an.ret_leaves() or [] if t.op == "agg" and t.args[3] == "Ok" and t.args[4][0].op == "agg" and t.args[4][0].args[3] == "Some"]
+        if not somes or not all(norm(t.args[4][0].args[4][0]) == norm(item) for t in somes):
+            msgs.append("the returned header is not the one whose name matched")
+    rep.require(not msgs, "by-name", q + ":predicate", w, "first header whose readable name equals the query (loop form)", "%s: %s" % (q, "; ".join(msgs)))
 
 
 def run(ctx, rep):
